@@ -41,12 +41,11 @@ import (
 	"runtime"
 	"runtime/debug"
 	"sort"
+	"strconv"
 	"strings"
 	"sync"
 	"sync/atomic"
 	"time"
-
-	goa "goa.design/goa/v3/pkg"
 
 	"verif/e2/spec"
 )
@@ -323,12 +322,11 @@ func (ss *StreamSvc) Unary(ex *streamEx) {
 		ex.SentN = s.V.Get(rv, m.Payload)
 		payload = rv.Interface()
 	}
-	epm := ss.client.MethodByName(s.GoMethod(m.Name))
-	if !epm.IsValid() {
-		ex.Herr = fmt.Errorf("client has no endpoint method for %q", m.Name)
+	ep, err := ss.endpoint(m.Name)
+	if err != nil {
+		ex.Herr = err
 		return
 	}
-	ep := epm.Call(nil)[0].Interface().(goa.Endpoint)
 	ss.setCurrent(ex)
 	defer ss.setCurrent(nil)
 	done := make(chan struct{})
@@ -601,6 +599,7 @@ func seqChildMain(specfile, design, service, seq string) {
 		out.Herr = "mount on sockets: " + err.Error()
 		return
 	}
+	ss.KeepEndpoints = true
 	for _, op := range ops {
 		o := seqExec(ss, svc.Methods[op.M], seqVariants[op.V])
 		out.Obs = append(out.Obs, o)
@@ -670,31 +669,65 @@ func keysSorted[T any](m map[string]T) []string {
 	return keys
 }
 
-// originOf says where an unexpected value comes from: an earlier operation of the sequence, or not.
-func originOf(val string, preds []*OpObs, pick func(*OpObs) []map[string]string, texts func(*OpObs) []string) string {
-	if val == "" {
-		return "other"
+// earlierTexts lists every value an earlier operation of the sequence put on, or took from, the
+// wire: attribute values of payloads and results (as plain text), header values in both
+// directions and the cookie pairs and values inside them.
+func earlierTexts(preds []*OpObs) []string {
+	var out []string
+	add := func(t string) {
+		if len(t) >= 3 {
+			out = append(out, t)
+		}
+	}
+	plain := func(canon string) string {
+		if u, err := strconv.Unquote(canon); err == nil {
+			return u
+		}
+		if len(canon) > 1 && (canon[0] == 'i' || canon[0] == 'u' || canon[0] == 'f') {
+			return canon[1:]
+		}
+		return canon
 	}
 	for _, p := range preds {
-		for _, mp := range pick(p) {
+		for _, mp := range []map[string]string{p.Sent, p.Recv, p.ResSent, p.ResGot} {
 			for _, v := range mp {
-				if v == val {
-					return "value-of-an-earlier-call"
+				add(plain(v))
+			}
+		}
+		for _, h := range []map[string][]string{p.ReqHeader, p.RespHeader} {
+			for k, vs := range h {
+				for _, v := range vs {
+					add(v)
+					if k == "Cookie" || k == "Set-Cookie" {
+						for _, pair := range strings.Split(v, ";") {
+							pair = strings.TrimSpace(pair)
+							add(pair)
+							if i := strings.IndexByte(pair, '='); i >= 0 {
+								add(pair[i+1:])
+							}
+						}
+					}
 				}
 			}
 		}
-		if texts != nil {
-			for _, t := range texts(p) {
-				if t != "" && strings.Contains(val, t) {
-					return "value-of-an-earlier-call"
-				}
-			}
+	}
+	return out
+}
+
+// originOf says where an unexpected value comes from: an earlier operation of the sequence, or not.
+func originOf(val string, earlier []string) string {
+	if u, err := strconv.Unquote(val); err == nil {
+		val = u
+	}
+	for _, t := range earlier {
+		if strings.Contains(val, t) {
+			return "value-of-an-earlier-call"
 		}
 	}
 	return "other"
 }
 
-func attrDiff(role string, places func(attr string) string, alone, got map[string]string, preds []*OpObs, pick func(*OpObs) []map[string]string) []opDiff {
+func attrDiff(role string, places func(attr string) string, alone, got map[string]string, earlier []string) []opDiff {
 	var out []opDiff
 	names := map[string]bool{}
 	for k := range alone {
@@ -711,7 +744,7 @@ func attrDiff(role string, places func(attr string) string, alone, got map[strin
 		}
 		obs := "unset"
 		if gok {
-			obs = originOf(g, preds, pick, nil)
+			obs = originOf(g, earlier)
 		}
 		exp := "set"
 		if !aok {
@@ -730,7 +763,7 @@ func orUnset(v string, ok bool) string {
 	return v
 }
 
-func headerDiff(role string, alone, got map[string][]string, preds []*OpObs, pick func(*OpObs) map[string][]string) []opDiff {
+func headerDiff(role string, alone, got map[string][]string, earlier []string) []opDiff {
 	var out []opDiff
 	names := map[string]bool{}
 	for k := range alone {
@@ -747,14 +780,17 @@ func headerDiff(role string, alone, got map[string][]string, preds []*OpObs, pic
 		obs := "absent"
 		if len(g) > 0 {
 			obs = "other"
-			for _, p := range preds {
-				pv := pick(p)[k]
-				for _, x := range g {
-					for _, y := range pv {
-						if x == y && !contains(a, x) {
-							obs = "value-of-an-earlier-call"
-						}
-					}
+			for _, x := range g {
+				if contains(a, x) {
+					continue
+				}
+				// what the header holds beyond what it holds alone
+				rest := x
+				for _, y := range a {
+					rest = strings.ReplaceAll(rest, y, "")
+				}
+				if originOf(rest, earlier) != "other" {
+					obs = "value-of-an-earlier-call"
 				}
 			}
 			if len(g) > len(a) && obs == "other" {
@@ -800,6 +836,7 @@ func seqCompare(s *Svc, m *spec.Method, side string, alone, got *OpObs, preds []
 	sp := s.Spec
 	var out []opDiff
 	add := func(class, what string) { out = append(out, opDiff{class, what}) }
+	earlier := earlierTexts(preds)
 	if alone.Panic != got.Panic || alone.PanicSite != got.PanicSite {
 		site := "none"
 		if got.Panic != "" {
@@ -820,7 +857,7 @@ func seqCompare(s *Svc, m *spec.Method, side string, alone, got *OpObs, preds []
 			}
 			return "loc=whole"
 		}
-		out = append(out, attrDiff("payload", place, alone.Recv, got.Recv, preds, func(o *OpObs) []map[string]string { return []map[string]string{o.Sent, o.Recv, o.ResSent} })...)
+		out = append(out, attrDiff("payload", place, alone.Recv, got.Recv, earlier)...)
 		if alone.ReqLine != got.ReqLine {
 			part := "path"
 			a, g := strings.SplitN(alone.ReqLine, "?", 2), strings.SplitN(got.ReqLine, "?", 2)
@@ -829,7 +866,7 @@ func seqCompare(s *Svc, m *spec.Method, side string, alone, got *OpObs, preds []
 			}
 			add("request-line part="+part, fmt.Sprintf("request line: alone %q, in the sequence %q", alone.ReqLine, got.ReqLine))
 		}
-		out = append(out, headerDiff("request-header", alone.ReqHeader, got.ReqHeader, preds, func(o *OpObs) map[string][]string { return o.ReqHeader })...)
+		out = append(out, headerDiff("request-header", alone.ReqHeader, got.ReqHeader, earlier)...)
 		if alone.ReqBody != got.ReqBody {
 			add("request-body", fmt.Sprintf("request body: alone %q, in the sequence %q", truncate(alone.ReqBody, 200), truncate(got.ReqBody, 200)))
 		}
@@ -844,7 +881,7 @@ func seqCompare(s *Svc, m *spec.Method, side string, alone, got *OpObs, preds []
 	if alone.Status != got.Status {
 		add(fmt.Sprintf("status alone=%d observed=%d", alone.Status, got.Status), fmt.Sprintf("status: alone %d, in the sequence %d", alone.Status, got.Status))
 	}
-	out = append(out, headerDiff("response-header", alone.RespHeader, got.RespHeader, preds, func(o *OpObs) map[string][]string { return o.RespHeader })...)
+	out = append(out, headerDiff("response-header", alone.RespHeader, got.RespHeader, earlier)...)
 	if alone.RespBody != got.RespBody {
 		add("response-body", fmt.Sprintf("response body: alone %q, in the sequence %q", truncate(alone.RespBody, 200), truncate(got.RespBody, 200)))
 	}
@@ -865,7 +902,7 @@ func seqCompare(s *Svc, m *spec.Method, side string, alone, got *OpObs, preds []
 			}
 			return "loc=message"
 		}
-		out = append(out, attrDiff("result", place, alone.ResGot, got.ResGot, preds, func(o *OpObs) []map[string]string { return []map[string]string{o.ResSent, o.ResGot, o.Sent} })...)
+		out = append(out, attrDiff("result", place, alone.ResGot, got.ResGot, earlier)...)
 	}
 	out = append(out, seqListDiff("streamed-replies-sent", alone.RepSent, got.RepSent)...)
 	out = append(out, seqListDiff("streamed-replies-delivered", alone.CliRecv, got.CliRecv)...)
@@ -1111,8 +1148,18 @@ func runSeqMode(s *Svc, m *spec.Method, tier, side string) *MethodResult {
 			seqIncomplete(fmt.Sprintf("%sQ %s/%s: budget exhausted, %d of %d sequences not run", side, s.Design, svc.Name, notRun, len(seqs)))
 		}
 	}
-	if len(r.Samples) == 0 && len(seqs) > 0 {
-		r.sample(map[string]any{"service": svc.Methods[0].Feat["service"], "operations": len(alphabet), "sequences": len(seqs) + len(alphabet), "example": names(seqs[len(seqs)-1])})
+	if len(seqs) > 0 {
+		// one executed sequence as a sample: the last one of the enumeration (maximal length)
+		ex := seqs[len(seqs)-1]
+		smp := map[string]any{"service": svc.Methods[0].Feat["service"], "operations": len(alphabet), "sequences": len(seqs) + len(alphabet), "example": names(ex)}
+		if out, err := seqSpawn(s, seqKey(ex)); err == nil && len(out.Obs) == len(ex) {
+			var lines []string
+			for _, o := range out.Obs {
+				lines = append(lines, fmt.Sprintf("%s/%s: %s -> service invoked %d, status %d", o.Kind, o.Variant, o.ReqLine, o.Invoked, o.Status))
+			}
+			smp["observed"] = lines
+		}
+		r.sample(smp)
 	}
 
 	// ---- report: minimal failing sequences only, variants folded when every variant fails alike
@@ -1154,9 +1201,24 @@ func runSeqMode(s *Svc, m *spec.Method, tier, side string) *MethodResult {
 	for _, gk := range order {
 		g := groups[gk]
 		n := len(g.members[0].ops)
-		folded := len(g.members) == pow(len(seqVariants), n)
+		// the failing variant combinations of these kinds: when they form a complete product of
+		// per-position variant sets they are one report, a position whose set is the whole menu is
+		// named by its kind only
+		sets := make([]map[int]bool, n)
+		for i := range sets {
+			sets[i] = map[int]bool{}
+		}
+		for _, f := range g.members {
+			for i, o := range f.ops {
+				sets[i][o.V] = true
+			}
+		}
+		product := 1
+		for _, st := range sets {
+			product *= len(st)
+		}
 		var reports [][]*seqFailure
-		if folded {
+		if product == len(g.members) {
 			reports = [][]*seqFailure{g.members}
 		} else {
 			for _, f := range g.members {
@@ -1166,18 +1228,19 @@ func runSeqMode(s *Svc, m *spec.Method, tier, side string) *MethodResult {
 		for _, members := range reports {
 			f := members[0]
 			class := f.diffs[0].Class
+			withVariant := func(i int) bool { return len(members) == 1 || len(sets[i]) < len(seqVariants) }
 			var pre []string
-			for _, o := range f.ops[:n-1] {
-				pre = append(pre, opName(o, !folded))
+			for i, o := range f.ops[:n-1] {
+				pre = append(pre, opName(o, withVariant(i)))
 			}
-			sig := fmt.Sprintf("%s sequence op=%s after=%s differs=%s", side, opName(f.ops[n-1], !folded), strings.Join(pre, ","), class)
+			sig := fmt.Sprintf("%s sequence op=%s after=%s differs=%s", side, opName(f.ops[n-1], withVariant(n-1)), strings.Join(pre, ","), class)
 			var whats []string
 			for _, d := range f.diffs {
 				whats = append(whats, d.What)
 			}
 			what := fmt.Sprintf("operation %s behaves differently after %v on the same client and server than alone on a fresh pair: %s", opName(f.ops[n-1], true), names(f.ops[:n-1]), strings.Join(whats, "; "))
-			if folded {
-				what += fmt.Sprintf(" (the same for all %d combinations of value variants)", len(members))
+			if len(members) > 1 {
+				what += fmt.Sprintf(" (the same for %d combinations of value variants)", len(members))
 			}
 			cs := map[string]any{"design": s.Design, "service": svc.Name, "sequence": names(f.ops), "sequence_key": seqKey(f.ops),
 				"observed": f.obs[n-1], "alone": alone[f.ops[n-1].key()], "predecessors": f.obs[:n-1], "failing_sequences_of_this_class": len(members)}
@@ -1200,14 +1263,6 @@ func runSeqMode(s *Svc, m *spec.Method, tier, side string) *MethodResult {
 		}
 	}
 	return r
-}
-
-func pow(b, e int) int {
-	n := 1
-	for i := 0; i < e; i++ {
-		n *= b
-	}
-	return n
 }
 
 func addOutcome(m map[string]int64, k string, n int64) map[string]int64 {
